@@ -22,6 +22,7 @@ import (
 	"path/filepath"
 	"strconv"
 	"sync"
+	"sync/atomic"
 	"testing"
 	"time"
 )
@@ -159,6 +160,16 @@ func TestVerifC10(t *testing.T) {
 	slog.SetDefault(slog.New(slog.NewTextHandler(io.Discard, nil)))
 	defer slog.SetDefault(prev)
 
+	// probe results applied so far (hook event): a restart waits for the first result of every restored target, so that
+	// a later "health" step is not overtaken by it
+	var applied atomic.Int64
+	verifEventFn = func(kind string, args ...any) {
+		if kind == "probe-apply" {
+			applied.Add(1)
+		}
+	}
+	defer func() { verifEventFn = nil }()
+
 	pool := vC10NewPool(t, 10)
 	topts := vC10TargetOptions()
 	dir := t.TempDir()
@@ -263,10 +274,20 @@ func TestVerifC10(t *testing.T) {
 					obs = append(obs, map[string]any{"res": vC10ErrClass(router.StopRollout(name))})
 				case "restart":
 					old := router
+					if svc := old.serviceForName(name); svc != nil {
+						svc.Dispose() // the old process is gone: its probe loops with it
+					}
+					before := applied.Load()
 					router = NewRouter(statePath)
 					err := router.RestoreLastSavedState()
-					if svc := old.serviceForName(name); svc != nil {
-						svc.Dispose()
+					if svc := router.serviceForName(name); svc != nil {
+						n := int64(len(svc.active.Targets()))
+						if svc.rollout != nil {
+							n += int64(len(svc.rollout.Targets()))
+						}
+						for w0 := time.Now(); applied.Load() < before+n && time.Since(w0) < 5*time.Second; {
+							time.Sleep(200 * time.Microsecond)
+						}
 					}
 					obs = append(obs, map[string]any{"res": vC10ErrClass(err)})
 				case "health":
